@@ -20,13 +20,21 @@
     }
     FinishReq:  defer { if request.Trans.Backend != nil { request.Trans.Backend.DecConnNum() } }
 
+  Round 2: the selection of a backend INSIDE a sub-cluster and the health bookkeeping after a RoundTrip
+  are a parameter (`Policy`) of `balance` / `loop` / `runSched`; every theorem of C07 and C08 is stated for
+  an arbitrary policy, so it covers WRR, least-connection (whose choice reads the very counters C07 is
+  about), sticky sessions, slow start, and backends flipping availability between attempts alike.
+  `realPolicy` mirrors the code that exists (smoothBalance, leastConnsSmoothBalance, stickyBalance,
+  OnFail/OnSuccess + UpdateStatus) and is what the correspondence run compares with the implementation.
+  A HandleForward callback may also REPLACE request.Trans.Backend (the code re-reads it after the callback).
+
   External inputs are explicit parameters: the per-attempt outcomes (HandleForward verdict, RoundTrip result)
   are a script, the murmur3 hash residue of the client address is `Cfg.w`, and the values drawn by
   `randomSelectExclude` (rand seeded with the clock) are the oracle stream `choices`.
 -/
 namespace BfeVerif.C07
 
-/-- one backend of a sub-cluster: availability flag and configured weight -/
+/-- one backend of a sub-cluster: initial availability flag and configured weight -/
 structure Back where
   up : Bool
   weight : Int
@@ -39,14 +47,17 @@ structure Sub where
   backs : List Back
   deriving Inhabited
 
-/-- verdict of the HandleForward callback chain: everything except Finish is ignored by clusterInvoke -/
+/-- verdict of the HandleForward callback chain: Finish ends the request; `replace k` = the callback put
+    the k-th backend of the cluster (enumeration order) into request.Trans.Backend and went on;
+    everything else is ignored by clusterInvoke -/
 inductive Fwd where
-  | goon | finish
+  | goon | finish | replace (k : Nat)
   deriving DecidableEq, Inhabited
 
-/-- result of one RoundTrip (http and fcgi error types fall in the same `case` arms) -/
+/-- result of one RoundTrip (http and fcgi error types fall in the same `case` arms);
+    `writeT` = WriteRequestError whose CheckTargetError is true (caused by the client side: no OnFail) -/
 inductive Rt where
-  | ok (status : Nat) | connect | write | rhdr | timeout | broken | other
+  | ok (status : Nat) | connect | write | writeT | rhdr | timeout | broken | other
   deriving DecidableEq, Inhabited
 
 structure Attempt where
@@ -61,7 +72,9 @@ structure Cfg where
   rm : Int              -- bal.retryMax
   cr : Int              -- bal.crossRetry
   rl : Nat              -- cluster.RetryLevel()
-  w : Nat               -- GetHash(hashKey, totalWeight)
+  h : Nat               -- murmur3.Sum64(hashKey)
+  mode : Nat            -- 0 WRR smooth, 1 WLC smooth (BalanceMode WLC), 2 sticky (SessionSticky)
+  failNum : Nat         -- health check FailNum of the cluster, 0 = no health-check configuration
   subs : List Sub       -- bal.subClusters (sorted by name)
 
 structure ReqSpec where
@@ -69,7 +82,28 @@ structure ReqSpec where
   noBody : Bool         -- checkRequestWithoutBody(outreq)
   script : List Attempt
 
-/-! ### smooth weighted round robin inside one sub-cluster -/
+/-- global backend id -/
+def bid (sub idx : Nat) : Nat := sub * 8 + idx
+
+/-- all backends of the cluster in (sub-cluster, index) order -/
+def allBids (cfg : Cfg) : List Nat :=
+  (cfg.subs.zipIdx.map fun (s, i) => (List.range s.backs.length).map fun j => bid i j).flatten
+
+def upd (f : Nat → Int) (b : Nat) (d : Int) : Nat → Int := fun x => if x = b then f x + d else f x
+
+/-! ### balancer state and the selection policy -/
+
+/-- mutable state of the balancer and its backends (everything except connNum) -/
+structure BalSt where
+  cur : List (List Int)      -- BackendRR.current per sub-cluster / backend
+  up : List (List Bool)      -- BfeBackend.avail
+  fails : List (List Nat)    -- BfeBackend.failNum
+
+/-- how a backend is chosen inside sub-cluster `si` (given the connNums), and what a RoundTrip result does
+    to the balancer state.  The theorems hold for every policy. -/
+structure Policy where
+  sel : Cfg → BalSt → (Nat → Int) → Nat → Option Nat × BalSt
+  note : Cfg → BalSt → Nat → Rt → BalSt
 
 def modAt (l : List Int) (i : Nat) (d : Int) : List Int :=
   match l, i with
@@ -77,39 +111,112 @@ def modAt (l : List Int) (i : Nat) (d : Int) : List Int :=
   | x :: xs, 0 => (x + d) :: xs
   | x :: xs, i + 1 => x :: modAt xs i d
 
-/-- the `for` loop of smoothBalance: (best index, total, updated currents) -/
-def smoothPass : List Back → List Int → Nat → Option Nat → Int → Int → Option Nat × Int × List Int
-  | b :: bs, c :: cs, i, best, mx, total =>
-    if !b.up || b.weight * 100 ≤ 0 then
-      let r := smoothPass bs cs (i + 1) best mx total
+/-- the `for` loop of smoothBalance over the backends flagged eligible: (best index, total, updated currents) -/
+def smoothPass : List Back → List Bool → List Int → Nat → Option Nat → Int → Int → Option Nat × Int × List Int
+  | b :: bs, e :: es, c :: cs, i, best, mx, total =>
+    if !e then
+      let r := smoothPass bs es cs (i + 1) best mx total
       (r.1, r.2.1, c :: r.2.2)
     else
       let pick := best.isNone || c > mx
-      let r := smoothPass bs cs (i + 1) (if pick then some i else best) (if pick then c else mx) (total + c)
+      let r := smoothPass bs es cs (i + 1) (if pick then some i else best) (if pick then c else mx) (total + c)
       (r.1, r.2.1, (c + b.weight * 100) :: r.2.2)
-  | _, cs, _, best, _, total => (best, total, cs)
+  | _, _, cs, _, best, _, total => (best, total, cs)
 
-def smoothBalance (backs : List Back) (cur : List Int) : Option Nat × List Int :=
-  match smoothPass backs cur 0 none 0 0 with
+def smoothBalance (backs : List Back) (elig : List Bool) (cur : List Int) : Option Nat × List Int :=
+  match smoothPass backs elig cur 0 none 0 0 with
   | (none, _, cur') => (none, cur')
   | (some i, total, cur') => (some i, modAt cur' i (-total))
 
-def setAt (l : List (List Int)) (i : Nat) (v : List Int) : List (List Int) :=
+def setAt {α : Type} (l : List α) (i : Nat) (v : α) : List α :=
   match l, i with
   | [], _ => []
   | _ :: xs, 0 => v :: xs
   | x :: xs, i + 1 => x :: setAt xs i v
 
-/-- SubCluster.balance: backend index inside sub-cluster `si` (none = error), updated currents -/
-def subBalance (cfg : Cfg) (cur : List (List Int)) (si : Nat) : Option Nat × List (List Int) :=
-  let sub := cfg.subs.getD si default
-  if sub.backs.length == 0 then (none, cur)
-  else
-    let r := smoothBalance sub.backs (cur.getD si [])
-    (r.1, setAt cur si r.2)
+/-- `backend.Avail() && backendRR.weight > 0` per backend of sub-cluster `si` -/
+def eligible (sub : Sub) (ups : List Bool) : List Bool :=
+  sub.backs.zipIdx.map fun (b, j) => ups.getD j false && decide (b.weight * 100 > 0)
 
-def initCur (subs : List Sub) : List (List Int) :=
-  subs.map fun s => s.backs.map fun b => b.weight * 100
+/-- compLCWeight(best, j) as the integer `ret` -/
+def compLC (sub : Sub) (conn : Nat → Int) (si best j : Nat) : Int :=
+  conn (bid si best) * ((sub.backs.getD j default).weight * 100) -
+  conn (bid si j) * ((sub.backs.getD best default).weight * 100)
+
+/-- first loop of leastConnsBalance: (best, singleBackend) -/
+def lcBest (sub : Sub) (conn : Nat → Int) (si : Nat) : List Bool → Nat → Option Nat → Bool → Option Nat × Bool
+  | [], _, best, single => (best, single)
+  | e :: es, j, best, single =>
+    if !e then lcBest sub conn si es (j + 1) best single
+    else
+      match best with
+      | none => lcBest sub conn si es (j + 1) (some j) true
+      | some bj =>
+        let ret := compLC sub conn si bj j
+        if ret > 0 then lcBest sub conn si es (j + 1) (some j) true
+        else if ret = 0 then lcBest sub conn si es (j + 1) best false
+        else lcBest sub conn si es (j + 1) best single
+
+/-- leastConnsBalance: flags of the candidates (none = all backends down) -/
+def lcCands (sub : Sub) (conn : Nat → Int) (si : Nat) (elig : List Bool) : Option (List Bool) :=
+  match lcBest sub conn si elig 0 none true with
+  | (none, _) => none
+  | (some bj, true) => some (elig.zipIdx.map fun (_, j) => j == bj)
+  | (some bj, false) => some (elig.zipIdx.map fun (e, j) => e && compLC sub conn si bj j == 0)
+
+/-- stickyBalance: the loop `value -= weight; if value < 0` over the candidates -/
+def stickyPick : List Back → List Bool → Nat → Int → Option Nat
+  | b :: bs, e :: es, j, v =>
+    if !e then stickyPick bs es (j + 1) v
+    else if v - b.weight * 100 < 0 then some j else stickyPick bs es (j + 1) (v - b.weight * 100)
+  | _, _, _, _ => none
+
+def eligWeight (backs : List Back) (elig : List Bool) : Int :=
+  ((backs.zip elig).map fun (b, e) => if e then b.weight * 100 else 0).foldl (· + ·) 0
+
+/-- SubCluster.balance with the algorithm Balance selects (WrrSmooth / WlcSmooth / WrrSticky) -/
+def realSel (cfg : Cfg) (bs : BalSt) (conn : Nat → Int) (si : Nat) : Option Nat × BalSt :=
+  let sub := cfg.subs.getD si default
+  if sub.backs.length == 0 then (none, bs)
+  else
+    let elig := eligible sub (bs.up.getD si [])
+    if cfg.mode == 2 then
+      let total := eligWeight sub.backs elig
+      if total ≤ 0 then (none, bs)
+      else (stickyPick sub.backs elig 0 ((cfg.h : Int) % total), bs)
+    else if cfg.mode == 1 then
+      match lcCands sub conn si elig with
+      | none => (none, bs)
+      | some cands =>
+        if (cands.filter id).length == 1 then (cands.findIdx? id, bs)
+        else
+          let r := smoothBalance sub.backs cands (bs.cur.getD si [])
+          (r.1, { bs with cur := setAt bs.cur si r.2 })
+    else
+      let r := smoothBalance sub.backs elig (bs.cur.getD si [])
+      (r.1, { bs with cur := setAt bs.cur si r.2 })
+
+/-- backend.OnFail / OnSuccess + UpdateStatus as clusterInvoke calls them after a RoundTrip to backend `b` -/
+def realNote (cfg : Cfg) (bs : BalSt) (b : Nat) (o : Rt) : BalSt :=
+  let si := b / 8
+  let j := b % 8
+  let f := (bs.fails.getD si []).getD j 0
+  match o with
+  | .ok _ => { bs with fails := setAt bs.fails si (setAt (bs.fails.getD si []) j 0) }
+  | .connect | .write | .rhdr | .timeout =>
+    let f' := f + 1
+    let bs1 := { bs with fails := setAt bs.fails si (setAt (bs.fails.getD si []) j f') }
+    if cfg.failNum > 0 && f' ≥ cfg.failNum then
+      { bs1 with up := setAt bs1.up si (setAt (bs1.up.getD si []) j false) }
+    else bs1
+  | _ => bs
+
+def realPolicy : Policy := ⟨realSel, realNote⟩
+
+def initBal (subs : List Sub) : BalSt :=
+  ⟨subs.map fun s => s.backs.map fun b => b.weight * 100,
+   subs.map fun s => s.backs.map fun b => b.up,
+   subs.map fun s => s.backs.map fun _ => 0⟩
 
 /-! ### sub-cluster selection -/
 
@@ -130,10 +237,10 @@ def hashPick : List Sub → Nat → Int → Option Nat
     if s.weight ≤ 0 then hashPick ss (i + 1) w
     else if w - s.weight < 0 then some i else hashPick ss (i + 1) (w - s.weight)
 
-/-- the sub-cluster the request is hashed to -/
+/-- the sub-cluster the request is hashed to (GetHash(key, totalWeight) = h % totalWeight) -/
 def primary (cfg : Cfg) : Nat :=
   if availCount cfg.subs == 1 then lastAvail cfg.subs 0 0
-  else (hashPick cfg.subs 0 cfg.w).getD (cfg.subs.length - 1)
+  else (hashPick cfg.subs 0 ((cfg.h : Int) % totalWeight cfg.subs)).getD (cfg.subs.length - 1)
 
 def crossOK (s : Sub) : Bool := decide (s.weight ≥ 0) && !s.black
 
@@ -143,9 +250,6 @@ def crossCandsAux : List Sub → Nat → Nat → List Nat
   | s :: ss, i, p => if i ≠ p && crossOK s then i :: crossCandsAux ss (i + 1) p else crossCandsAux ss (i + 1) p
 
 def crossCands (cfg : Cfg) (p : Nat) : List Nat := crossCandsAux cfg.subs 0 p
-
-/-- global backend id -/
-def bid (sub idx : Nat) : Nat := sub * 8 + idx
 
 /-! ### state -/
 
@@ -158,11 +262,9 @@ inductive Err where
   | toomany | blackhole | nobackend | nosubcross | crossbal
   deriving DecidableEq, Inhabited
 
-def upd (f : Nat → Int) (b : Nat) (d : Int) : Nat → Int := fun x => if x = b then f x + d else f x
-
 /-- state threaded through one clusterInvoke -/
 structure LS where
-  cur : List (List Int)      -- WRR currents of all sub-clusters (shared balancer state)
+  bs : BalSt                 -- balancer / backend state (shared)
   conn : Nat → Int           -- BfeBackend.connNum of every backend (shared)
   tb : Option Nat            -- request.Trans.Backend
   retry : Nat                -- request.RetryTime
@@ -170,13 +272,14 @@ structure LS where
   cross : Bool               -- request.Stat.IsCrossCluster
   script : List Attempt
   choices : List Nat         -- oracle: values of r.Int31() in randomSelectExclude
+  picks : List Nat := []     -- backends returned by Balance so far, newest first (for the trace only)
 
 inductive BalRes where
   | ok (b : Nat) (sub : Nat) (viaCross : Bool)
   | err (e : Err)
 
 /-- BalanceGslb.Balance from "check if cross retry is disabled" on; `p` = the hashed sub-cluster -/
-def crossPhase (cfg : Cfg) (p : Nat) (s1 : LS) : BalRes × LS :=
+def crossPhase (pol : Policy) (cfg : Cfg) (p : Nat) (s1 : LS) : BalRes × LS :=
   if cfg.cr ≤ 0 then (.err .nobackend, { s1 with ec := .nobackend })
   else
     let s2 := { s1 with cross := true }
@@ -185,21 +288,21 @@ def crossPhase (cfg : Cfg) (p : Nat) (s1 : LS) : BalRes × LS :=
     else
       let q := cands.getD (s2.choices.headD 0 % cands.length) 0
       let s3 := { s2 with choices := s2.choices.tail }
-      match subBalance cfg s3.cur q with
-      | (some j, cur') => (.ok (bid q j) q true, { s3 with cur := cur' })
-      | (none, cur') => (.err .crossbal, { s3 with cur := cur', ec := .nobackend })
+      match pol.sel cfg s3.bs s3.conn q with
+      | (some j, bs') => (.ok (bid q j) q true, { s3 with bs := bs' })
+      | (none, bs') => (.err .crossbal, { s3 with bs := bs', ec := .nobackend })
 
 /-- BalanceGslb.Balance -/
-def balance (cfg : Cfg) (s : LS) : BalRes × LS :=
+def balance (pol : Policy) (cfg : Cfg) (s : LS) : BalRes × LS :=
   if (s.retry : Int) > cfg.rm + cfg.cr then (.err .toomany, s)
   else
     let p := primary cfg
     if (cfg.subs.getD p default).black then (.err .blackhole, { s with ec := .blackhole })
     else if (s.retry : Int) ≤ cfg.rm then
-      match subBalance cfg s.cur p with
-      | (some j, cur') => (.ok (bid p j) p false, { s with cur := cur' })
-      | (none, cur') => crossPhase cfg p { s with cur := cur', retry := cfg.rm.toNat }
-    else crossPhase cfg p s
+      match pol.sel cfg s.bs s.conn p with
+      | (some j, bs') => (.ok (bid p j) p false, { s with bs := bs' })
+      | (none, bs') => crossPhase pol cfg p { s with bs := bs', retry := cfg.rm.toNat }
+    else crossPhase pol cfg p s
 
 /-- the `switch err.(type)` of clusterInvoke + checkAllowRetry -/
 def allowRetry (cfg : Cfg) (rq : ReqSpec) : Rt → Bool
@@ -212,6 +315,7 @@ def ecOf (old : Ec) : Rt → Ec
   | .ok _ => .none
   | .connect => .connect
   | .write => .write
+  | .writeT => .write
   | .rhdr => .rhdr
   | .timeout => .timeout
   | .broken => .broken
@@ -221,14 +325,22 @@ def errOf : Rt → Err
   | .ok _ => .nil
   | .connect => .connect
   | .write => .write
+  | .writeT => .write
   | .rhdr => .rhdr
   | .timeout => .timeout
   | .broken => .broken
   | .other => .other
 
+/-- the backend the request is sent to: the one Balance chose unless the callback replaced it -/
+def target (cfg : Cfg) (f : Fwd) (b : Nat) : Nat :=
+  match f with
+  | .replace k => (allBids cfg).getD k b
+  | _ => b
+
 /-- observable events of one clusterInvoke -/
 inductive Ev where
-  /-- RoundTrip to backend `b` of sub-cluster `sub`; `snap` = all connNums at that moment -/
+  /-- RoundTrip to backend `b` (after a possible replacement by the callback); `sub` = the sub-cluster
+      Balance selected; `snap` = all connNums at that moment -/
   | rt (b sub : Nat) (viaCross : Bool) (snap : Nat → Int) (out : Rt)
   /-- HandleForward returned Finish for backend `b` (no RoundTrip) -/
   | fin (b sub : Nat)
@@ -244,28 +356,29 @@ def decTb (conn : Nat → Int) : Option Nat → Nat → Int
   | some o => upd conn o (-1)
   | none => conn
 
-/-- the retry loop; first argument = iterations left (20 at entry), `last` = current value of `err` -/
-def loop (cfg : Cfg) (rq : ReqSpec) : Nat → LS → Err → LR
+/-- the retry loop; first Nat = iterations left (20 at entry), `last` = current value of `err` -/
+def loop (pol : Policy) (cfg : Cfg) (rq : ReqSpec) : Nat → LS → Err → LR
   | 0, s, last => ⟨none, last, 0, s, []⟩
   | n + 1, s, _ =>
-    match balance cfg s with
-    | (.err .crossbal, s1) => loop cfg rq n { s1 with retry := s1.retry + 1 } .crossbal
+    match balance pol cfg s with
+    | (.err .crossbal, s1) => loop pol cfg rq n { s1 with retry := s1.retry + 1 } .crossbal
     | (.err e, s1) => ⟨none, e, 0, s1, []⟩
-    | (.ok b sub x, s1) =>
+    | (.ok b0 sub x, s1) =>
       let conn1 := decTb s1.conn s1.tb
       let a := s1.script.headD Attempt.dflt
-      match a.fwd with
-      | .finish =>
-        ⟨none, .nil, 1, { s1 with conn := conn1, tb := none, script := s1.script.tail }, [.fin b sub]⟩
-      | .goon =>
+      if a.fwd = .finish then
+        ⟨none, .nil, 1, { s1 with conn := conn1, tb := none, script := s1.script.tail, picks := b0 :: s1.picks }, [.fin b0 sub]⟩
+      else
+        let b := target cfg a.fwd b0
         let conn2 := upd conn1 b 1
-        let s2 := { s1 with conn := conn2, tb := some b, script := s1.script.tail, ec := ecOf s1.ec a.rt }
+        let s2 : LS := { s1 with bs := pol.note cfg s1.bs b a.rt, conn := conn2, tb := some b,
+                                 script := s1.script.tail, ec := ecOf s1.ec a.rt, picks := b0 :: s1.picks }
         let e := Ev.rt b sub x conn2 a.rt
         match a.rt with
         | .ok st => ⟨some st, .nil, 0, s2, [e]⟩
         | o =>
           if allowRetry cfg rq o then
-            let r := loop cfg rq n { s2 with retry := s2.retry + 1 } (errOf o)
+            let r := loop pol cfg rq n { s2 with retry := s2.retry + 1 } (errOf o)
             { r with evs := e :: r.evs }
           else ⟨none, errOf o, 0, s2, [e]⟩
 
@@ -286,7 +399,7 @@ inductive StepOut where
   | bad
 
 structure G where
-  cur : List (List Int)
+  bs : BalSt
   conn : Nat → Int
   rqs : List RqSt
   outs : List StepOut     -- newest first
@@ -298,18 +411,22 @@ def setRq (l : List RqSt) (i : Nat) (v : RqSt) : List RqSt :=
   | x :: xs, i + 1 => x :: setRq xs i v
 
 def G.init (cfg : Cfg) (nreq : Nat) : G :=
-  ⟨initCur cfg.subs, fun _ => 0, List.replicate nreq {}, []⟩
+  ⟨initBal cfg.subs, fun _ => 0, List.replicate nreq {}, []⟩
+
+/-- the state clusterInvoke starts from -/
+def entryLS (g : G) (rq : ReqSpec) (ch : List Nat) : LS :=
+  ⟨g.bs, g.conn, none, 0, .none, false, rq.script, ch, []⟩
 
 /-- one step; `ch` = the oracle values for this step (used by `inv` only) -/
-def step (cfg : Cfg) (reqs : List ReqSpec) (g : G) (st : Step) (ch : List Nat) : G :=
+def step (pol : Policy) (cfg : Cfg) (reqs : List ReqSpec) (g : G) (st : Step) (ch : List Nat) : G :=
   match st with
   | .inv k =>
     match reqs[k]?, g.rqs[k]? with
     | some rq, some r =>
       if r.invoked then { g with outs := .bad :: g.outs }
       else
-        let lr := loop cfg rq 20 ⟨g.cur, g.conn, none, 0, .none, false, rq.script, ch⟩ .nil
-        { cur := lr.st.cur, conn := lr.st.conn,
+        let lr := loop pol cfg rq 20 (entryLS g rq ch) .nil
+        { bs := lr.st.bs, conn := lr.st.conn,
           rqs := setRq g.rqs k { tb := lr.st.tb, invoked := true, done := false },
           outs := .inv k lr :: g.outs }
     | _, _ => { g with outs := .bad :: g.outs }
@@ -323,9 +440,9 @@ def step (cfg : Cfg) (reqs : List ReqSpec) (g : G) (st : Step) (ch : List Nat) :
                  outs := .fin k conn' :: g.outs }
     | none => { g with outs := .bad :: g.outs }
 
-def runSched (cfg : Cfg) (reqs : List ReqSpec) : G → List Step → List (List Nat) → G
+def runSched (pol : Policy) (cfg : Cfg) (reqs : List ReqSpec) : G → List Step → List (List Nat) → G
   | g, [], _ => g
-  | g, st :: rest, chs => runSched cfg reqs (step cfg reqs g st (chs.headD [])) rest chs.tail
+  | g, st :: rest, chs => runSched pol cfg reqs (step pol cfg reqs g st (chs.headD [])) rest chs.tail
 
 /-- number of requests whose Trans.Backend is `b` -/
 def inflight : List RqSt → Nat → Int
